@@ -2026,3 +2026,19 @@ def create_models_merged_ahead_of_evolutions(case, outcome, atoms):
     return [a for a in atoms
             if not (a[0] == 'requirement_broken' and a[1] == 'declared' and
                     a[2] in ('evo>create', 'evo>evo') and a[3] == 'same_batch')]
+
+
+# ---------------------------------------------------------------------------
+# C10
+# ---------------------------------------------------------------------------
+
+@explainer
+def unmarked_initial_migration_runs_before_evolutions(case, outcome, atoms):
+    """MoveToDjangoMigrations(mark_applied=[]) marks nothing, so the app's initial
+    migration is an ordinary root migration: it goes into the pre-migration
+    stage and is (soft-)applied and recorded *before* the app's pending
+    evolutions run (the dependency the mutation generates only covers the
+    marked migrations)."""
+    if case.get('p') != 0 or (case.get('start') or [None])[0] != 'evo':
+        return atoms
+    return [a for a in atoms if a[0] != 'evolution_after_migration']
